@@ -44,8 +44,11 @@ class TimedHarness:
 
     # hooks for subclasses ------------------------------------------------
     def make_ao(self, s, p):
+        klass = None
+        if p.get("sub_qsize"):      # a subclass with a small QUEUE_SIZE: the capacity of the tracked-source list
+            klass = type("SmallAO", (ao_mod.ActiveObject,), {"QUEUE_SIZE": p["sub_qsize"]})
         with H.QueueSize(p.get("qsize")):
-            return H.new_ao("ao", H.make_state())
+            return H.new_ao("ao", H.make_state(), klass=klass)
 
     def actions(self, s, p, ao, ids):
         """runs in the main thread inside the window after the sources were started"""
